@@ -38,6 +38,16 @@ def rule_sets(rng):
     out.append(("indirect", {0: ("mf", ("and", ("fwd", 1), ("lit", "x")), ("lit", "a")), 1: ("and", ("fwd", 0), ("lit", "y"))}, ("fwd", 0),
                 ("and", ("lit", "a"), ("star", ("and", ("lit", "y"), ("lit", "x")))), "flat",
                 lambda: "a" + "yx" * rng.randint(0, 3)))
+    # the left-recursive rule as the shared first element of backtracking alternatives (memo hits after a partial match)
+    Eflat = {0: (alt, ("and", ("fwd", 0), mk_ops(ops1), N), N)}
+    It = ("and", N, ("star", ("and", mk_ops(ops1), N)))
+    cmp_ops = rng.choice([["<", "<="], ["<", "<=", "<=>"], ["=", "=="]])
+    out.append(("shared-prefix", Eflat, ("mf",) + tuple(("and", ("fwd", 0), ("lit", o), ("fwd", 0)) for o in cmp_ops) + (("fwd", 0),),
+                ("mf",) + tuple(("and", It, ("lit", o), It) for o in cmp_ops) + (It,), "flat",
+                lambda: expr_string(rng, [ops1]) + rng.choice(["", " "]) + rng.choice(cmp_ops) + rng.choice(["", " "]) + expr_string(rng, [ops1])))
+    out.append(("shared-prefix-group", Eflat, ("or", ("group", ("and", ("fwd", 0), ("lit", cmp_ops[0]), ("fwd", 0))), ("and", ("fwd", 0), ("lit", cmp_ops[1]), ("fwd", 0))),
+                ("or", ("group", ("and", It, ("lit", cmp_ops[0]), It)), ("and", It, ("lit", cmp_ops[1]), It)), "flat",
+                lambda: expr_string(rng, [ops1]) + rng.choice(cmp_ops[:2]) + expr_string(rng, [ops1])))
     # no base case
     out.append(("no-base", {0: ("and", ("fwd", 0), ("lit", "a"))}, ("fwd", 0), None, "nobase", lambda: "a" * rng.randint(0, 3)))
     out.append(("no-base-alt", {0: ("mf", ("and", ("fwd", 0), ("lit", "a")), ("and", ("fwd", 0), ("lit", "b")))}, ("fwd", 0), None, "nobase",
@@ -117,7 +127,7 @@ def correspond(ctx):
             for _ in range(3):
                 s = mk()
                 inputs.add(s)
-                inputs.add(gen.mutate_input(rng, s, "12+*a xy"))
+                inputs.add(gen.mutate_input(rng, s, "12+*a xy<="))
             inputs = sorted(inputs)[:6]
             groups.append((root, env, inputs, [("lr", c) for c in CAPS], [("parse", False), ("parse", True)]))
             oracle_cases.append((name, env, root, iterative, kind, inputs))
@@ -128,23 +138,30 @@ def correspond(ctx):
     pcommon.model_agreement(ctx, recs, "lr-growth-outcomes")
     for r in recs:
         ctx.case(pcommon.key_of(r), nontrivial=sum(r["inp"].count(o) for o in "+-*/&") >= 2 or r["inp"].count("y") >= 2, agreed=r.get("agree", True))
-    # oracle on the implementation
+    run_oracle(ctx, oracle_cases)
+    ctx.sample({"rule": "E <<= E + ('+'|'-') + N | N", "input": "1+2-12", "capacities": [str(c) for c in CAPS]})
+
+
+def run_oracle(ctx, oracle_cases, stop_at_first=False):
+    """oracle on the implementation"""
     for (name, env, root, iterative, kind, inputs) in oracle_cases:
+        if stop_at_first and ctx.violations:
+            return
         for inp in inputs:
             outs = {c: guarded(lambda c=c: impl_tokens(root, env, inp, ("lr", c))) for c in CAPS}
             ctx.case("oracle:%s|%r" % (name, inp), nontrivial=len(inp) >= 5, agreed=True)
             if any(o[0] in ("timeout", "div") for o in outs.values()):
                 ctx.violation("termination:%s|%r" % (name, inp), "%s on %r: left-recursive parse does not terminate: %r" % (name, inp, outs),
-                              {"kind": "oracle", "name": name, "env": env, "input": inp})
+                              {"kind": "oracle", "name": name, "env": env, "root": root, "input": inp})
                 continue
             if len({repr(o) for o in outs.values()}) > 1:
                 ctx.violation("capacity:%s|%r" % (name, inp), "%s on %r: the result depends on the memo capacity: %r" % (name, inp, outs),
-                              {"kind": "oracle", "name": name, "env": env, "input": inp})
+                              {"kind": "oracle", "name": name, "env": env, "root": root, "input": inp})
             got = outs[None]
             if kind == "nobase":
                 if not (got[0] == "err" and got[1] == "ParseException"):
                     ctx.violation("nobase:%s|%r" % (name, inp), "%s on %r: expected ParseException, got %r" % (name, inp, got),
-                                  {"kind": "oracle", "name": name, "env": env, "input": inp})
+                                  {"kind": "oracle", "name": name, "env": env, "root": root, "input": inp})
                 continue
             want = guarded(lambda: impl_tokens(iterative, {}, inp, ("none",)))
             if want[0] == "ok" and kind == "grouped":
@@ -153,12 +170,28 @@ def correspond(ctx):
             if not same:
                 key = "equiv:indirect-stale-seeds" if name == "indirect" else "equiv:%s|%r" % (name, inp)
                 ctx.violation(key, "%s (env %r) on %r: left-recursive grammar gives %r, the iterative equivalent gives %r" % (name, env, inp, got, want),
-                              {"kind": "oracle", "name": name, "env": env, "input": inp})
-    ctx.sample({"rule": "E <<= E + ('+'|'-') + N | N", "input": "1+2-12", "capacities": [str(c) for c in CAPS]})
+                              {"kind": "oracle", "name": name, "env": env, "root": root, "input": inp})
 
 
 def search(ctx, reasons):
-    pass
+    import random, time
+    t0 = time.time()
+    for seed in range(1, 6 if not ctx.thorough else 60):
+        rng = random.Random(ctx.seed * 1000 + seed)
+        cases = []
+        for _ in range(6):
+            for (name, env, root, iterative, kind, mk) in rule_sets(rng):
+                inputs = set()
+                for _ in range(4):
+                    s = mk()
+                    inputs.add(s)
+                    inputs.add(gen.mutate_input(rng, s, "12+*a xy<="))
+                cases.append((name, env, root, iterative, kind, sorted(inputs)))
+        n0 = len(ctx.violations)
+        run_oracle(ctx, cases, stop_at_first=True)
+        ctx.stat("search_cases", sum(len(c[5]) for c in cases))
+        if len(ctx.violations) > n0 or time.time() - t0 > (120 if not ctx.thorough else 900):
+            return
 
 
 def _tuplify(x):
@@ -170,7 +203,7 @@ def replay(ctx, obj):
     if r.get("kind") == "oracle":
         env = {int(k): _tuplify(v) for k, v in r["env"].items()}
         for c in CAPS:
-            print(c, impl_tokens(("fwd", 0), env, r["input"], ("lr", c)))
+            print(c, impl_tokens(_tuplify(r.get("root") or ["fwd", 0]), env, r["input"], ("lr", c)))
         return False
     print("replay names a broken proof/correspondence obligation: %r" % (r,))
     return False
